@@ -318,7 +318,7 @@ def observe_compile(W_, rec, ctxhist):
                     return
 
 
-OPS = ("init", "init", "init_numeric", "reinit_same", "stepel", "stepel", "netstep", "netstep", "netstep_alt", "compile", "compile", "compile",
+OPS = ("init", "init", "init_numeric", "read_views", "read_views", "reinit_same", "stepel", "stepel", "netstep", "netstep", "netstep_alt", "compile", "compile", "compile",
        "add_branch", "add_ramp", "replace_origin", "replace_link", "replace_dest", "replace_branch_dest", "replace_dest_user", "replace_origin_user")
 
 
@@ -348,6 +348,15 @@ def apply(W_, rec, op, arg=None):
             rec.count("netstep_raised")
             rec.seen("netstep_raised", repr(e)[:100])
             return False
+    elif op == "read_views":
+        # the public network-level views (printed / logged by the caller between the steps of its own loop)
+        W_.hist.append(lab)
+        for nm in ("states", "actions", "disturbances", "next_states"):
+            try:
+                _ = dict(getattr(W_.net, nm))
+            except Exception:
+                rec.count("network_view_read_raised")
+        rec.count("network_views_read")
     elif op == "compile":
         W_.hist.append(lab)
         observe_compile(W_, rec, W_.hist)
@@ -390,6 +399,12 @@ def run(M, rec, tier, seed, k, n):
         [("replace_origin_user", None), ("netstep", None), ("compile", None)],
         [("replace_dest_user", None), ("netstep", None), ("stepel", 4), ("compile", None)],
         [("add_branch", None), ("netstep", None), ("replace_branch_dest", None), ("init", 7), ("stepel", 2), ("compile", None)],
+        # the network-level views read while the caller's own loop is under way
+        [("init", 0), ("init", 1), ("init", 2), ("init", 3), ("init", 4), ("read_views", None), ("stepel", 0), ("stepel", 1), ("stepel", 2), ("stepel", 3),
+         ("stepel", 4), ("compile", None)],
+        [("init", 0), ("init", 1), ("init", 2), ("init", 3), ("init", 4), ("stepel", 3), ("read_views", None), ("stepel", 0), ("stepel", 1), ("stepel", 2),
+         ("stepel", 4), ("compile", None)],
+        [("netstep", None), ("read_views", None), ("add_ramp", None), ("init", 4), ("stepel", 4), ("read_views", None), ("compile", None)],
         # elements whose states are held at numbers: as unready as any other until stepped
         [("init_numeric", 0), ("init", 1), ("init", 2), ("init", 3), ("init", 4), ("stepel", 1), ("stepel", 2), ("stepel", 3), ("compile", None)],
         [("netstep", None), ("add_ramp", None), ("init_numeric", 4), ("compile", None)],
@@ -408,7 +423,7 @@ def run(M, rec, tier, seed, k, n):
                         break
                 rec.count("scripted_histories")
     # exhaustive short histories over a reduced alphabet, ending with compile
-    small = [("netstep", None), ("init", 0), ("init", 1), ("init", 4), ("init_numeric", 1), ("stepel", 0), ("stepel", 1), ("stepel", 3),
+    small = [("netstep", None), ("init", 0), ("init", 1), ("init", 4), ("init_numeric", 1), ("read_views", None), ("stepel", 0), ("stepel", 1), ("stepel", 3),
              ("add_ramp", None), ("replace_origin", None), ("add_branch", None), ("replace_link", None), ("reinit_same", 0),
              ("replace_branch_dest", None), ("replace_dest", None)]
     depth = 3 if tier == "quick" else 4
